@@ -3,6 +3,7 @@ finite set of inputs (cargo test in a scratch copy, modules injected under cfg(v
 Never counted as proved; reported under bounded_checks. Also used to find a concrete failing input
 when a Verus obligation fails (no-failing-input-found otherwise)."""
 import os
+import time
 import re
 
 from common import VERIF, Undecided, offline_env, run
@@ -53,6 +54,15 @@ def run_group(scratch, group, timeout=1800, only=None):
     with open(p, "a") as f:
         f.write('\n#[cfg(verif_replay)]\n#[path = "%s"]\nmod %s;\n' % (group.path, group.modname))
     strip_dev_deps(scratch)
+    # the replay target directory is shared between runs: make sure cargo never takes the crate's own
+    # artifacts from an earlier tree at the same path for fresh (it compares mtimes, not contents)
+    now = time.time()
+    for root, _dirs, files in os.walk(os.path.join(scratch, "src")):
+        for fn in files:
+            try:
+                os.utime(os.path.join(root, fn), (now, now))
+            except OSError:
+                pass
     env = offline_env({"CARGO_TARGET_DIR": kani_leg.REPLAY_TARGET, "RUSTFLAGS": "--cfg verif_replay -A warnings"})
     cmd = ["cargo", "test", "--offline", "--release", "--lib", group.modname + "::", "--", "--nocapture", "--test-threads", "1"]
     if only:
@@ -71,7 +81,11 @@ def run_group(scratch, group, timeout=1800, only=None):
             continue
         ran = re.search(r"test \S*::%s \.\.\." % re.escape(name), text)
         failed = re.search(r"^    \S*::%s$" % re.escape(name), text, re.M) or re.search(r"\S*::%s \.\.\. FAILED" % re.escape(name), text)
-        status = "missing" if not ran else ("FAILED" if failed else "ok")
+        if not ran:
+            # the test did not run at all (stale artifact, filter mismatch, renamed harness): a tool
+            # problem, never a verdict about the code
+            raise Undecided("native check %s::%s did not run:\n%s" % (group.name, name, "\n".join(text.splitlines()[-15:])))
+        status = "FAILED" if failed else "ok"
         msg = None
         clause = None
         if status != "ok":
